@@ -57,19 +57,27 @@ Serializable == (\A s \in Sess : pc[s] = "done") =>
 \* ---------------------------------------------------------------------------------------------------- Part 2: schedules
 AllDevs == {"C19.create_table_metadata_seen_half_done"}
 InitSt == [x |-> 0]
-Pairs == {"txpk|txpk", "none|readinfo", "none|none", "ins|ins", "ctmeta|readmeta", "merge|merge", "ctmeta|ctmeta", "conn|connother", "comment|comment"}
-\*  errs: statements that raised; hang; rows: rows of the shared table; tabs: user tables made; schemas: user schemas of D1; partial
-Obs(errs, rows, tabs, schemas, pt) == [errs |-> errs, hang |-> FALSE, rows |-> rows, tabs |-> tabs, schemas |-> schemas, partial |-> pt]
+Pairs == {"txpk|txpk", "none|readinfo", "none|none", "ins|ins", "ctmeta|readmeta", "merge|merge", "ctmeta|ctmeta", "conn|connother", "comment|comment",
+          "mergefail|merge", "nodbsel|nodbsel"}
+\*  errs: statements that raised; hang; rows: rows of the shared tables; vsum: the sum of their values; tabs: user tables made;
+\*  schemas: user schemas of D1; partial: metadata seen half-done; foreign: a session received a result that is not its own
+VSum(pair) == CASE pair = "ins|ins" -> 3 [] pair = "merge|merge" -> 33 [] pair = "txpk|txpk" -> 7 [] pair = "mergefail|merge" -> 22 [] pair = "nodbsel|nodbsel" -> 3 [] OTHER -> 0
+Obs(errs, rows, tabs, schemas, pt) == [errs |-> errs, hang |-> FALSE, rows |-> rows, tabs |-> tabs, schemas |-> schemas, partial |-> pt, foreign |-> FALSE, vsum |-> 0]
 Serial(pair) ==
   CASE pair \in {"none|none", "none|readinfo"} -> Obs(0, 0, 0, 1, FALSE) [] pair = "ins|ins" -> Obs(0, 2, 0, 1, FALSE) [] pair = "ctmeta|readmeta" -> Obs(0, 0, 1, 0, FALSE)
     [] pair = "merge|merge" -> Obs(0, 2, 0, 1, FALSE) [] pair = "ctmeta|ctmeta" -> Obs(0, 0, 2, 0, FALSE) [] pair = "conn|connother" -> Obs(0, 0, 0, 2, FALSE)
     [] pair = "comment|comment" -> Obs(0, 0, 0, 1, FALSE)
     \* both insert the same primary key inside a transaction: in every serial order the second one fails and one row exists
     [] pair = "txpk|txpk" -> Obs(1, 1, 0, 1, FALSE)
+    \* a MERGE that fails (its source does not exist) next to one that succeeds: one error, the other's row, nobody waits for ever
+    [] pair = "mergefail|merge" -> Obs(1, 1, 0, 1, FALSE)
+    \* two sessions that connected WITHOUT a database: INSERT own value, SELECT own constant - each gets its own result
+    [] pair = "nodbsel|nodbsel" -> Obs(0, 2, 0, 0, FALSE)
+Outcome(pair) == [Serial(pair) EXCEPT !.vsum = VSum(pair)]
 Steps(st, op, D) ==
-  {R(st, Serial(op.pair))}
-  \cup (IF "C19.create_table_metadata_seen_half_done" \in D /\ op.pair = "ctmeta|readmeta" THEN {R(st, [Serial(op.pair) EXCEPT !.partial = TRUE])} ELSE {})
+  {R(st, Outcome(op.pair))}
+  \cup (IF "C19.create_table_metadata_seen_half_done" \in D /\ op.pair = "ctmeta|readmeta" THEN {R(st, [Outcome(op.pair) EXCEPT !.partial = TRUE])} ELSE {})
 CONSTANTS MaxP
 Ops(st) == [k : {"sched"}, pair : Pairs, first : {1, 2}, p1 : 0..MaxP, p2 : 0..MaxP]
-StepOk(st, op, r) == r.obs = Serial(op.pair)
+StepOk(st, op, r) == r.obs = Outcome(op.pair)
 =============================================================================
